@@ -11,6 +11,7 @@ import (
 	"hash/fnv"
 	"math/rand"
 	"os"
+	"regexp"
 	"runtime"
 	"strings"
 	"sync"
@@ -405,4 +406,38 @@ func Try(f func()) (pv interface{}, stack string) {
 func Try2(f func()) (panicked bool) {
 	pv, _ := Try(f)
 	return pv != nil
+}
+
+var reNumWk = regexp.MustCompile(`0x[0-9a-f]+|\d+`)
+
+// ClassifyCrash extracts (kind, normalized message, innermost qiloop frame) from the stderr of a crashed Go process.
+func ClassifyCrash(stderr string) (kind, msg, site string) {
+	lines := strings.Split(stderr, "\n")
+	for i, l := range lines {
+		if strings.HasPrefix(l, "panic: ") || strings.HasPrefix(l, "fatal error: ") {
+			kind = "panic"
+			if strings.HasPrefix(l, "fatal error: ") {
+				kind = "fatal"
+			}
+			msg = reNumWk.ReplaceAllString(l, "N")
+			msg = strings.Map(func(r rune) rune {
+				if r == ' ' || r == '\t' {
+					return '_'
+				}
+				return r
+			}, msg)
+			if len(msg) > 90 {
+				msg = msg[:90]
+			}
+			rest := strings.Join(lines[i:], "\n")
+			blocks := strings.SplitN(rest, "\n\n", 3)
+			search := rest
+			if len(blocks) >= 2 {
+				search = blocks[0] + "\n\n" + blocks[1]
+			}
+			site = PanicSite(search)
+			return
+		}
+	}
+	return "", "", ""
 }
